@@ -485,10 +485,12 @@ def _nothing_else(ctx, loader, func):
                '%s = %s' % (dom, src), construct='restore loop domain')
     gp = loader.methods.get('get_placed_apps')
     ctx.require(gp is not None, 'Loader.get_placed_apps')
-    src = ast.unparse(gp.node)
+    lists = [c for c in K.calls(gp.node) if K.is_meth(c, 'list') and
+             (K.recv_text(c) or '').endswith('backend') and c.args]
     ctx.ob('C11.5', gp, None,
-           'self.backend.list(placement_node)' in src and
-           'z.path.placement(servername)' in src,
+           bool(lists) and all(
+               K.rtxt(gp, c.args[0]) == 'z.path.placement(%s)' %
+               gp.params()[1] for c in lists),
            'the stored listing is the children of the server placement '
            'node', construct='get_placed_apps')
 
